@@ -46,10 +46,10 @@ def _gauss(c, name, mean, form, n, param='cov', geometry=None):
     return Gaussian(mean, **kw)
 
 
-def _target(c, m, n, noise_form, prior_form, prior_kind, backing, nlik, noise_param='cov', prior_param='cov'):
+def _target(c, m, n, noise_form, prior_form, prior_kind, backing, nlik, noise_param='cov', prior_param='cov', same_m=False):
     liks = []
     for k in range(nlik):
-        mk = m if k == 0 else max(1, m - k)          # later likelihoods have a different number of data points
+        mk = m if (k == 0 or same_m) else max(1, m - k)          # later likelihoods have a different number of data points (same_m: equally many, different models and noise)
         A = c.mat(f'A{k}_', mk, n); m_k = mk
         model = LinearModel(A) if backing == 'matrix' else LinearModel(lambda x, A=A: A @ x, lambda y, A=A: A.T @ y, range_geometry=m_k, domain_geometry=n)
         data = c.vec(f'y{k}_', m_k)
@@ -79,8 +79,8 @@ def _check_operator(c, M, b_tild, target, n):
     c.eq('normal_equations_are_the_stationarity_of_the_targets_own_logd', M(np.asarray(b_tild) - np.asarray(Mx), 2), g, tol=1e-4)
 
 
-def linear_rto(c, iface, m, n, noise_form, prior_form, prior_kind='Gaussian', backing='matrix', nlik=1, noise_param='cov', prior_param='cov'):
-    target = _target(c, m, n, noise_form, prior_form, prior_kind, backing, nlik, noise_param, prior_param)
+def linear_rto(c, iface, m, n, noise_form, prior_form, prior_kind='Gaussian', backing='matrix', nlik=1, noise_param='cov', prior_param='cov', same_m=False):
+    target = _target(c, m, n, noise_form, prior_form, prior_kind, backing, nlik, noise_param, prior_param, same_m)
     xcur = c.vec('xcur', n)
     if iface == 'exp':
         from cuqi.experimental.mcmc import LinearRTO
@@ -297,6 +297,9 @@ def jobs(tier):
         for (m, n, nf, pf, pk, backing, nlik) in cfgs:
             J.append(Job(f'{tag}.LinearRTO:m={m}:n={n}:noise={nf}:prior={pk}/{pf}:{backing}:likelihoods={nlik}',
                          lambda c, a=(iface, m, n, nf, pf, pk, backing, nlik): linear_rto(c, *a), 'Pbox', fl, extra=_extra, rtol=1e-4, timeout=600))
+        for (m, n, nf, backing, nlik) in ((2, 2, 'vector', 'matrix', 2), (2, 2, 'scalar', 'functions', 3)):
+            J.append(Job(f'{tag}.LinearRTO:m={m}:n={n}:noise={nf}:prior=Gaussian/scalar:{backing}:likelihoods={nlik}:equally_many_data_each',
+                         lambda c, a=(iface, m, n, nf, 'scalar', 'Gaussian', backing, nlik): linear_rto(c, *a, same_m=True), 'Pbox', fl, extra=_extra, rtol=1e-4, timeout=600))
         for (np_, pp) in (('prec', 'sqrtprec'), ('sqrtcov', 'prec'), ('sqrtprec', 'sqrtcov')):
             J.append(Job(f'{tag}.LinearRTO:m=2:n=2:noise_param={np_}:prior_param={pp}', lambda c, i=iface, a=np_, b=pp: linear_rto(c, i, 2, 2, 'vector', 'vector', 'Gaussian', 'matrix', 1, a, b),
                          'Pbox', fl, extra=_extra, rtol=1e-4, timeout=600))
